@@ -29,6 +29,9 @@ CVRP_UPDATE_STALE = '''        td.set("action_mask", self.get_action_mask(td))
 
 CORPUS = [
     # ---------------------------------------------------------------- C01
+    V("C01", "mdcpdp-capacity-single-column", "rl4co/envs/routing/mdcpdp/generator.py", 'size=(*batch_size, self.num_depot),\n        )\n\n        # Sample lateness', 'size=(*batch_size, 1),\n        )\n\n        # Sample lateness', 'C01.n'),
+    V("C01", "mdcpdp-current-depot-frozen", "rl4co/envs/routing/mdcpdp/env.py", 'current_depot = torch.where(current_node < num_depot, current_node, current_depot)', 'current_depot = torch.where(back_flag, current_node, current_depot)', 'C01.n'),
+    V("C01", "eq-mdcpdp-current-depot-negated", "rl4co/envs/routing/mdcpdp/env.py", 'current_depot = torch.where(current_node < num_depot, current_node, current_depot)', 'current_depot = torch.where(current_node >= num_depot, current_depot, current_node)', None),
     V("C01", "mdcpdp-available-or-deliverable", "rl4co/envs/routing/mdcpdp/env.py", 'action_mask = available & to_deliver', 'action_mask = available | to_deliver', 'C01.p'),
     V("C01", "mdcpdp-customers-open-after-return", "rl4co/envs/routing/mdcpdp/env.py", 'action_mask[..., num_depot:] &= ~back_flag.expand_as(action_mask[..., num_depot:])', 'action_mask[..., num_depot:] &= back_flag.expand_as(action_mask[..., num_depot:])', 'C01.p'),
     V("C01", "mdcpdp-current-depot-open-after-return", "rl4co/envs/routing/mdcpdp/env.py", 'action_mask[..., :num_depot].scatter_(-1, current_depot, ~back_flag)', 'action_mask[..., :num_depot].scatter_(-1, current_depot, back_flag)', 'C01.p'),
@@ -171,6 +174,7 @@ CORPUS += [
 G_ = "rl4co/envs/graph/"
 CORPUS += [
     # ---------------------------------------------------------------- C03
+    V("C03", "mdcpdp-last-return-dropped", "rl4co/envs/routing/mdcpdp/env.py", '            current_length = current_length.scatter_add(\n                -1, td["current_depot"], last_leg.unsqueeze(-1)\n            )\n', '            pass\n', 'C03.d'),
     V("C03", "mcp-every-item-covered", "rl4co/envs/graph/mcp/env.py", 'chosen_items = (chosen_items > 0).float()', 'chosen_items = (chosen_items >= 0).float()', 'C03.f'),
     V("C03", "mcp-covered-twice-only", "rl4co/envs/graph/mcp/env.py", 'chosen_items = (chosen_items > 0).float()', 'chosen_items = (chosen_items > 1).float()', 'C03.f'),
     V("C03", "mcp-uncovered-counted", "rl4co/envs/graph/mcp/env.py", 'chosen_items = (chosen_items > 0).float()', 'chosen_items = (chosen_items == 0).float()', 'C03.f'),
@@ -578,6 +582,7 @@ CORPUS += [
 
 CORPUS += [
     # ---------------------------------------------------------------- C18
+    V("C18", "mdcpdp-capacity-single-column", "rl4co/envs/routing/mdcpdp/generator.py", 'size=(*batch_size, self.num_depot),\n        )\n\n        # Sample lateness', 'size=(*batch_size, 1),\n        )\n\n        # Sample lateness', 'C18.j'),
     V("C18", "fjsp-one-machine-short", "rl4co/envs/scheduling/fjsp/generator.py", 'ma_seq_per_ops <= n_eligible_per_ops[..., None]', 'ma_seq_per_ops < n_eligible_per_ops[..., None]', 'C18.i'),
     V("C18", "fjsp-counter-from-zero", "rl4co/envs/scheduling/fjsp/generator.py", 'torch.arange(1, self.num_mas + 1)[None, None]', 'torch.arange(0, self.num_mas)[None, None]', 'C18.i'),
     V("C18", "fjsp-counter-short", "rl4co/envs/scheduling/fjsp/generator.py", 'torch.arange(1, self.num_mas + 1)[None, None]', 'torch.arange(1, self.num_mas)[None, None]', 'C18.i'),
